@@ -234,6 +234,118 @@ def drag_return_problems(sc, phases):
     return None, [], nret
 
 
+def scene_move_infos(out):
+    """harness `scenes` output -> {tag: {op name: dict of the MI line}} (see harness/c13_topo.cpp move_info)"""
+    res, tag = {}, None
+    for line in out.split('\n'):
+        if line.startswith('SCENE '):
+            tag = line[6:].strip()
+        elif line.startswith('ENDSCENE '):
+            tag = None
+        elif line.startswith('MI ') and tag is not None:
+            t = line.split()
+            d = {}
+            for kv in t[2:]:
+                k, v = kv.split('=', 1)
+                try:
+                    d[k] = int(v)
+                except ValueError:
+                    try:
+                        d[k] = float(v)
+                    except ValueError:
+                        d[k] = v
+            res.setdefault(tag, {})[t[1]] = d
+    return res
+
+
+def move_info_problems(sc, phases, mi):
+    """loop-level oracle of ColaTopologyAddon::moveTo (scene op MOVE), the observable side of Topology/MoveTo.v
+    moveTo_positions_are_last_safe_state: after the call (a) coords[] == rectangle centres and (b) the state (node centres AND paths) is the state
+    after some number k >= 1 of iterations of the reference loop `TopologyConstraints::solve()` run on a copy of the scene (every iteration = one
+    safe step with alpha = min maxSafeAlpha + one topology event) - whether or not the iteration budget was exhausted.
+    -> (phase index, problems) of the first MOVE op that breaks it"""
+    names = [p['name'] for p in phases]
+    for oi, op in enumerate(sc['ops']):
+        nm = 'op%d' % (oi + 1)
+        if op[0] != 'MOVE' or nm not in names or nm not in mi:
+            continue
+        m = mi[nm]
+        bad = []
+        cd = m.get('coords_dev', 0)
+        if not (isinstance(cd, (int, float)) and cd == cd and cd <= 1e-9):
+            bad.append({'kind': 'coords[] returned by ColaTopologyAddon::moveTo differ from the rectangle centres (max deviation %s): libcola and libtopology '
+                                'no longer agree where the nodes are' % cd, 'code': 6})
+        if m.get('match_first', -1) < 0:
+            capped = m.get('ref_iters', 0) > 100 or not m.get('ref_converged', 1)
+            bad.append({'kind': 'the state ColaTopologyAddon::moveTo left behind (node centres + paths) is not the state after ANY number of safe steps: the reference '
+                                'loop (TopologyConstraints::solve() repeated on a copy of the scene, %d iterations%s) never passes through it%s; node centres '
+                                'alone %s.  Model (Topology/MoveTo.v): the returned positions are exactly those of the last state produced by a safe step, '
+                                'also when the iteration budget is exhausted' %
+                                (m.get('ref_iters', 0), '' if m.get('ref_converged') else ', not converged', ' (the pass needs more than the 100 iterations of the budget)' if capped else '',
+                                 ('match reference iteration %d, the paths do not' % m['pos_match']) if m.get('pos_match', -1) > 0 else
+                                 ('match no reference iteration (closest: %g)' % m.get('dev_min', -1))), 'code': 6})
+        if bad:
+            for b in bad:
+                b['move_info'] = m
+            return names.index(nm), bad
+    return None, []
+
+
+def side_flip_problems(sc, phases):
+    """a node jumped over a straight edge: scene op MOVE in axis d moves every node along d only.  For an edge that is straight (centre to centre) before
+    and after the op and a node v (not an end node) whose extent in the other axis lies strictly between the two end points' coordinates (before and
+    after), v cannot get from one side of the edge to the other without crossing it (it cannot pass round an end), and crossing it requires a bend
+    round v.  v strictly on one side before and strictly on the other side after = the edge was pulled through v.  -> (phase index, problems)"""
+    names = [p['name'] for p in phases]
+    for oi, op in enumerate(sc['ops']):
+        nm, prev = 'op%d' % (oi + 1), ('before' if oi == 0 else 'op%d' % oi)
+        if op[0] != 'MOVE' or nm not in names or prev not in names:
+            continue
+        p0, p1 = phases[names.index(prev)], phases[names.index(nm)]
+        if p0.get('nonfinite') or p1.get('nonfinite') or len(p0['nodes']) != len(p1['nodes']) or len(p0['paths']) != len(p1['paths']):
+            continue
+        o = 1 if op[1] == 0 else 0          # index of the axis that does not move
+        bad = []
+        for q0, q1 in zip(p0['paths'], p1['paths']):
+            if len(q0['points']) != 2 or len(q1['points']) != 2:
+                continue
+            ends = (q0['points'][0][0], q0['points'][1][0])
+            sides = []
+            for q, ph in ((q0, p0), (q1, p1)):
+                a, b = (q['points'][0][2], q['points'][0][3]), (q['points'][1][2], q['points'][1][3])
+                lo, hi = min(a[o], b[o]), max(a[o], b[o])
+                row = []
+                for i, r in enumerate(ph['nodes']):
+                    if i in ends or not (lo + 1e-9 < r[o] and r[o + 2] < hi - 1e-9):
+                        row.append(0); continue
+                    cs = [(b[0] - a[0]) * (cy - a[1]) - (cx - a[0]) * (b[1] - a[1]) for cx in (r[0], r[2]) for cy in (r[1], r[3])]
+                    row.append(1 if all(c > 1e-9 for c in cs) else -1 if all(c < -1e-9 for c in cs) else 0)
+                sides.append(row)
+            for i, (s0, s1) in enumerate(zip(*sides)):
+                if s0 * s1 < 0:
+                    bad.append({'kind': 'node %d was strictly on one side of the straight edge %d -> %d before the MOVE and is strictly on the other side after it, the edge '
+                                        'is still straight (no bend round the node) and the node cannot have passed round an end of the edge: the edge was pulled through the node' %
+                                        (i, ends[0], ends[1]), 'code': 7, 'edge': q1['edge'], 'src': q1['src'], 'dst': q1['dst'], 'node': i,
+                                'node_before_x0y0x1y1': p0['nodes'][i], 'node_after_x0y0x1y1': p1['nodes'][i], 'points_node_kind_x_y': q1['points']})
+        if bad:
+            return names.index(nm), bad
+    return None, []
+
+
+def extra_move_oracles(sc, phases, mi, k, bad):
+    """merge the MOVE oracles into the verdict of judge_phases: the earliest rejected phase wins, problems of the same phase are joined"""
+    n_extra = 0
+    for kk, bb in (move_info_problems(sc, phases, mi), side_flip_problems(sc, phases)):
+        if kk is None:
+            continue
+        n_extra += 1
+        if k is None or kk < k:
+            k, bad = kk, list(bb)
+        elif kk == k:
+            bad = list(bb) + list(bad)
+    return k, bad, n_extra
+
+
 def assert_fingerprint(exc):
     """EXC <expr> | <file>:<line> | <function> | op<k>  ->  assert:<file>:<expr>"""
     f = [x.strip() for x in exc[4:].split('|')]
@@ -248,18 +360,21 @@ def assert_fingerprint(exc):
 
 def run_scene_families(res, tier, rng, exe, spec_exe):
     from checks import c13lib as L
-    nq = (400, 300, 400, 300) if tier == 'quick' else (3000, 2000, 3000, 2500)
+    nq = (400, 300, 400, 300, 24) if tier == 'quick' else (3000, 2000, 3000, 2500, 240)
     scenes = []
     if os.path.exists(SCENE_CORPUS):
         scenes += [dict(sc, corpus=True) for sc in L.parse_scripts(open(SCENE_CORPUS).read())]
     scenes += L.gen_scenes(rng, *nq)
     st = {'scenes': len(scenes), 'by_family': {}, 'start_invalid': 0, 'checked_states': 0, 'ops': {'MOVE0': 0, 'MOVE1': 0, 'RESIZE': 0, 'LAYOUT': 0, 'DRAG0': 0, 'DRAG1': 0}, 'drag_steps': 0, 'drag_returns_checked': 0,
-          'bends_created_or_removed': 0, 'assertions': {}, 'ndebug_runs': 0, 'known': {}, 'wall_s': 0.0}
+          'bends_created_or_removed': 0, 'assertions': {}, 'ndebug_runs': 0, 'known': {}, 'wall_s': 0.0,
+          'moveto_loop': {'calls_compared_with_reference_loop': 0, 'ended_at_final_alpha_1': 0, 'iteration_cap_hit': 0, 'max_reference_iterations': 0,
+                          'max_segment_events_in_one_call': 0, 'state_is_a_safe_step_state': 0, 'reference_loop_exceptions': 0, 'oracle_failures': 0}}
     viol = 0
     inp = ''.join(L.script(sc) for sc in scenes)
     rc, out, err, dt = C.sh([exe, 'scenes', '20'], input=inp, timeout=1800)
     st['wall_s'] += dt
     got = split_scene_output(out)
+    mis = scene_move_infos(out)
     if rc != 0 or len(got) != len(scenes):
         res.violation({'what': 'harness c13_topo scenes failed', 'rc': rc, 'scenes': len(scenes), 'parsed': len(got), 'stderr': err[-1500:]}, no_input=True)
         return st, 1
@@ -287,6 +402,17 @@ def run_scene_families(res, tier, rng, exe, spec_exe):
             st['drag_returns_checked'] += nret
             if kd is not None and (k is None or kd < k):
                 k, bad = kd, badd
+        ml = st['moveto_loop']
+        for m in mis.get(sc['tag'], {}).values():
+            ml['calls_compared_with_reference_loop'] += 1
+            ml['ended_at_final_alpha_1'] += 1 if m.get('at_final') else 0
+            ml['iteration_cap_hit'] += 1 if (m.get('match_last', -1) > 0 and (m['match_last'] < m.get('ref_iters', 0) or not m.get('ref_converged'))) else 0
+            ml['max_reference_iterations'] = max(ml['max_reference_iterations'], m.get('ref_iters', 0))
+            ml['max_segment_events_in_one_call'] = max(ml['max_segment_events_in_one_call'], abs(m.get('events', 0)))
+            ml['state_is_a_safe_step_state'] += 1 if m.get('match_first', -1) > 0 else 0
+            ml['reference_loop_exceptions'] += 1 if m.get('ref_exc') else 0
+        k, bad, nx = extra_move_oracles(sc, phases, mis.get(sc['tag'], {}), k, bad)
+        ml['oracle_failures'] += nx
         if status != 'ok' and not exc:
             exc = 'EXC harness child ended with ' + status
         if k is None and not exc:
@@ -303,6 +429,7 @@ def run_scene_families(res, tier, rng, exe, spec_exe):
             rc, out2, err2, dt = C.sh([exe_nd, 'scenes', '20'], input=''.join(L.script(f[0]) for f in failing), timeout=1800)
             st['wall_s'] += dt
             got2 = split_scene_output(out2)
+            mis2 = scene_move_infos(out2)
             order = [f[0]['tag'] for f in failing if f[0]['tag'] in got2]
             rows2, e2 = check_phases(spec_exe, [got2[t][0] for t in order])
             for t, rw in zip(order, rows2 or []):
@@ -313,6 +440,8 @@ def run_scene_families(res, tier, rng, exe, spec_exe):
                     kd, badd, _ = drag_return_problems(sc_t, ph2)
                     if kd is not None and (k2 is None or kd < k2):
                         k2, bad2 = kd, badd
+                if ph2:
+                    k2, bad2, _ = extra_move_oracles(sc_t, ph2, mis2.get(t, {}), k2, bad2)
                 nd[t] = {'status': status2, 'exception': exc2, 'phases': len(ph2), 'rejected_phase': ph2[k2]['name'] if k2 else None, 'problems': bad2[:4],
                          'rejected_state': {'nodes_x0y0x1y1': ph2[k2]['nodes'], 'paths': ph2[k2]['paths']} if k2 else None}
                 st['ndebug_runs'] += 1
@@ -327,11 +456,13 @@ def run_scene_families(res, tier, rng, exe, spec_exe):
             st['assertions'][fp] = st['assertions'].get(fp, 0) + 1
         ndr = nd.get(sc['tag'])
         last_ok = phases[(k - 1) if k else max(i for i, p in enumerate(phases) if not p['name'].endswith('.atexc'))]
-        obj = {'what': ('the verified checker rejects a state reached by libtopology' if k else
+        obj = {'what': ('ColaTopologyAddon::moveTo does not return the last state produced by a safe step (loop-level oracle, DESIGN 9.17): ' + bad[0]['kind']
+                        if k and any(b.get('code') in (6, 7) for b in bad) else
+                        'the verified checker rejects a state reached by libtopology' if k else
                         'an invariant assertion of libtopology fired (reported as a violation of the property: the library itself found '
                         'a non-convex bend / a segment through a node / an infeasible constraint); see ndebug_run for the same scene in '
                         'a build without assertions, judged by the verified checker'),
-               'family': sc['family'], 'symmetry_swap_flipx_flipy': sc.get('sym'), 'assertion': exc, 'assertion_fingerprint': fp,
+               'family': sc['family'], 'symmetry_swap_flipx_flipy': sc.get('sym'), 'comb_parameters': sc.get('comb'), 'assertion': exc, 'assertion_fingerprint': fp,
                'problems': bad[:4], 'rejected_state': state(phases[k]) if k else None, 'last_valid_state': state(last_ok),
                'ndebug_run': ndr, 'scene_script': L.script(sc),
                'replay': 'printf \'%s\' | build/bin/c13_topo-exc-* scenes     (and c13_topo-ndebug-*)' % L.script(sc).replace('\n', '\\n')}
@@ -355,7 +486,7 @@ def run_scene_families(res, tier, rng, exe, spec_exe):
     st['residual_unclassified'] = len(residual)
     st['residual_cap'] = RESID_MAX
     st['residual_scenes'] = [o['scene_script'] for o, f in residual][:6]
-    GENERIC = ('drag', 'drag2', 'corpus-drag')     # generic coordinates: never eligible for the lattice residual class
+    GENERIC = ('drag', 'drag2', 'corpus-drag', 'comb-parallel', 'comb-fan', 'comb-alternate', 'corpus-comb')     # generic coordinates: never eligible for the lattice residual class
     for obj, f in residual:
         if len(residual) <= RESID_MAX and os.environ.get('C13_NO_RESIDUAL') is None and obj['family'] not in GENERIC:
             if res.violation(obj, fingerprint='lattice_degenerate_residual'):
